@@ -299,9 +299,9 @@ func classRank(c string) int {
 }
 
 func checkC05(r *mc.Report, thorough bool) {
-	depth := 2
+	depth := 3
 	if thorough {
-		depth = 3
+		depth = 4
 	}
 	r.Explore(mc.Config{Name: fmt.Sprintf("graph-states-d%d", depth), Prune: true, SplitDepth: 2, StopAfterViolations: 12,
 		Rule: fmt.Sprintf("explicit-state search over graph states reached by %d legal writes (create/delete/undelete any of the 9 edges among root,A,B,C in either direction, node points), states = (edge set with tombstones, nodes with points, remaining depth); in EVERY new state the whole menu of must-be-refused requests is executed: self edges, root tombstone (alone / in a batch), new edge without node type, every edge that would close a cycle through live or deleted edges (incl. through the root), NaN at each position of node-point and edge-point batches; after each: error reply, full snapshot unchanged, nothing on up.>, follow-up write+read answered", depth)},
